@@ -33,3 +33,60 @@ Print Assumptions C16_commit_refines.
 Theorem C16_flush_invisible : forall d, db_view (flush d) = db_view d.
 Proof. exact flush_invisible. Qed.
 Print Assumptions C16_flush_invisible.
+
+(* Rolled-back transactions, and commits refused because the transaction is
+   read-only, leave the database state literally unchanged. *)
+Theorem C16_rollback_no_trace : forall d txs h, fst (fst (impl_step (d, txs) (FRollback h))) = d.
+Proof. exact rollback_no_trace. Qed.
+Print Assumptions C16_rollback_no_trace.
+
+Theorem C16_refused_commit_no_trace : forall d txs h t fl, tx_find txs h = Some t -> t_w t = false ->
+  fst (fst (impl_step (d, txs) (FCommit h fl))) = d.
+Proof. exact readonly_commit_no_trace. Qed.
+Print Assumptions C16_refused_commit_no_trace.
+
+(* Refinement over histories: for every admissible history (any interleaving
+   of begin / put / delete / get / full ordered scan / commit / rollback on any
+   number of handles, at most one write transaction open at a time, readers
+   keeping the snapshot they started with, close/reopen only with no open
+   transaction) and EVERY choice of flush decisions, the layered
+   implementation returns exactly what one ordered map with copy-on-begin
+   transactions returns. *)
+Theorem C16_refines_spec : forall m ops, sorted m -> admissible [] ops = true ->
+  run impl_step (impl_init m) ops = run spec_step (spec_init m) ops.
+Proof. exact refines_spec_init. Qed.
+Print Assumptions C16_refines_spec.
+
+(* ... hence every read is unchanged under every flush schedule: two histories
+   that differ only in when the cache flushes give the same outputs. *)
+Theorem C16_flush_schedule_invisible : forall m ops1 ops2, sorted m ->
+  map clear_flush ops1 = map clear_flush ops2 -> admissible [] ops1 = true ->
+  run impl_step (impl_init m) ops1 = run impl_step (impl_init m) ops2.
+Proof. exact flush_schedule_invisible. Qed.
+Print Assumptions C16_flush_schedule_invisible.
+
+(* What ForEach / a cursor lists for a bucket (the model's listing: the prefix
+   slice of the merged map) is sorted and complete: exactly the pairs Get
+   returns in that bucket; same for the nested-bucket index. *)
+Theorem C16_cursor_sorted_complete : forall t id, tx_ok t ->
+  sorted (bucket_keys t id) /\
+  (forall k v, In (k, v) (bucket_keys t id) <-> fetch t (bucketized id k) = Some v) /\
+  sorted (bucket_subs t id) /\
+  (forall n v, In (n, v) (bucket_subs t id) <-> fetch t (bidx_key id n) = Some v).
+Proof. exact cursor_sorted_complete. Qed.
+Print Assumptions C16_cursor_sorted_complete.
+
+(* Non-vacuity: a history with a reader that keeps its snapshot across a
+   commit, a rollback, a flushing and a non-flushing commit is admissible, and
+   the implementation model returns the expected values. *)
+Example C16_nonvacuous :
+  let ops := [FBegin 1 true; FPut 1 [1] [10]; FPut 1 [2] [20]; FCommit 1 false;
+              FBegin 2 false; FBegin 3 true; FDel 3 [1]; FPut 3 [3] []; FGet 3 [1]; FGet 2 [1];
+              FCommit 3 true; FGet 2 [1]; FScan 2; FRollback 2;
+              FBegin 4 true; FPut 4 [9] [9]; FRollback 4; FFlush; FBegin 5 false; FScan 5] in
+  admissible [] ops = true /\
+  run impl_step (impl_init []) ops =
+    [ONone; ONone; ONone; ONone; ONone; ONone; ONone; ONone; OVal None; OVal (Some [10]);
+     ONone; OVal (Some [10]); OScan [([1], [10]); ([2], [20])]; ONone;
+     ONone; ONone; ONone; ONone; ONone; OScan [([2], [20]); ([3], [])]].
+Proof. vm_compute. split; reflexivity. Qed.
